@@ -46,6 +46,10 @@ CLAIMED['C04'] = dict(design='5 (C04), 2', note='trusted: MIRSE MIR semantics + 
     'by interpreting the real constructors (ByteTokenizer::new, CharTokenizer::new, BPETokenizer::new with the msgpack load stubbed by an '
     'in-memory table); queried id symbolic u32, queried token from a representative subset; HashMap order fixed; BPE id_to_token defect '
     'repaired by a fix commit')
+CLAIMED['C01'] = dict(design='5 (C01), 2', note='trusted: MIRSE MIR semantics + std models, regex model (leftmost-first literal alternation, diff-tested), '
+    'grapheme model over Sigma_g; tokenizers built by interpreting the real constructors on a grid of concrete configurations; texts are '
+    'symbolic characters and templates that contain / nearly contain special-token spellings; HashMap order fixed; decoding with special '
+    'tokens kept is compared with prefix spellings + text + suffix spellings')
 NOT_YET = 'check not built yet in this session (work in progress, see DESIGN.md section 6 for the order)'
 NA = {}
 
